@@ -315,6 +315,8 @@ pub fn err_class(e: &ZmqError) -> String {
 /// Runs E3 jobs and folds the results into the check's coverage and findings.
 pub fn run_jobs_into(ck: &mut Check, jobs: Vec<Job>, blocked_is_violation: bool) -> RunReport {
     let n_jobs = jobs.len();
+    // listed known findings of this check do not count towards the explorer's early stops
+    explore::set_known_classes(zvcore::evidence::load_known(&ck.id).into_iter().filter_map(|(sig, _)| sig.split_once('/').map(|(_, c)| c.to_string())).collect());
     let rep = explore::run_jobs(
         jobs,
         ck.threads,
@@ -335,6 +337,8 @@ pub fn run_jobs_into(ck: &mut Check, jobs: Vec<Job>, blocked_is_violation: bool)
     let mut truncated = 0u64;
     let mut blocked = 0u64;
     let mut capped = 0u64;
+    let mut skipped = 0u64;
+    let mut stopped = 0u64;
     let mut max_trace = 0usize;
     let mut max_exec_ms = 0u64;
     let mut by_devs: std::collections::BTreeMap<usize, u64> = Default::default();
@@ -349,6 +353,13 @@ pub fn run_jobs_into(ck: &mut Check, jobs: Vec<Job>, blocked_is_violation: bool)
         blocked += r.blocked;
         if r.capped {
             capped += 1;
+        }
+        if r.skipped {
+            skipped += 1;
+            continue;
+        }
+        if r.stopped_after_violations {
+            stopped += 1;
         }
         min_bound = min_bound.min(r.bound_completed);
         max_bound = max_bound.max(r.bound_completed);
@@ -403,6 +414,8 @@ pub fn run_jobs_into(ck: &mut Check, jobs: Vec<Job>, blocked_is_violation: bool)
     ck.cov_add("e3_truncated_at_horizon", truncated);
     ck.cov_add("e3_thread_blocked_executions", blocked);
     ck.cov_add("e3_scenarios_capped", capped);
+    ck.cov_add("e3_scenarios_not_run_after_a_dozen_failing_ones", skipped);
+    ck.cov_add("e3_scenarios_stopped_after_8_failing_executions", stopped);
     ck.cov_add("e3_distinct_outcomes", outcomes.len() as u64);
     ck.cov_add("e3_distinct_nontrivial_outcomes", nontrivial.len() as u64);
     ck.cov("e3_max_choice_points_in_one_execution", max_trace as u64);
@@ -434,7 +447,11 @@ pub fn run_jobs_into(ck: &mut Check, jobs: Vec<Job>, blocked_is_violation: bool)
 /// Standard closing of a scenario: stash the verdict, tear the world down.
 pub fn finish(mut v: Verdict) -> Verdict {
     for l in world::livelocks() {
-        v.violate("livelock/cooperative-yield", l);
+        if l.starts_with("yield-loop:") {
+            v.violate("livelock/loop-without-suspension", l);
+        } else {
+            v.violate("livelock/cooperative-yield", l);
+        }
     }
     v.log = world::log_snapshot();
     for p in world::panics() {
